@@ -84,6 +84,25 @@ theorem setter_rules (st st' : TState α) (i : Nat) (b : Bool) (h : setRequiresG
       · rfl
   · simp at h
 
+/-- **Every route that switches flags obeys the setter's rules**: a call over a list of tensors (`Module.unfreeze()` on any ancestor)
+    that is accepted has found its first tensor a floating-point leaf ... -/
+theorem route_first_is_setter (st : TState α) (i : Nat) (is : List Nat) (b : Bool)
+    (h : (setRequiresGradAll st (i :: is) b).2 = true) :
+    ∃ n dt, st.g[i]? = some n ∧ st.dtypes[i]? = some dt ∧ n.isLeaf = true ∧ (b = true → dt.isFloat = true) := by
+  cases hs : setRequiresGrad st i b with
+  | none => simp [setRequiresGradAll, hs] at h
+  | some st' => exact setter_rules st st' i b hs
+
+/-- ... and a tensor the setter refuses ends the call: it is refused as a whole, the state is the one reached before that tensor. -/
+theorem route_refused (st : TState α) (i : Nat) (is : List Nat) (b : Bool) (h : setRequiresGrad st i b = none) :
+    setRequiresGradAll st (i :: is) b = (st, false) := by
+  simp [setRequiresGradAll, h]
+
+/-- an accepted tensor hands the rest of the list to the same rule -/
+theorem route_step (st st' : TState α) (i : Nat) (is : List Nat) (b : Bool) (h : setRequiresGrad st i b = some st') :
+    setRequiresGradAll st (i :: is) b = setRequiresGradAll st' is b := by
+  simp [setRequiresGradAll, h]
+
 /-! ### tensors made from tensors without an op -/
 
 /-- **A detached tensor is a plain tensor whatever its source holds**: it does not require grad, has no
